@@ -9,7 +9,7 @@ package centrifuge
 // every ping, presence tick, disconnect and unsubscribe push gets an exact virtual timestamp.
 // One scenario per op line, one output line per scenario:
 //
-//   sc sched=0|1 ping=MS pong=MS stale=MS ecd=MS escd=MS pres=MS csr=0|1 rh=0|1 srh=0|1
+//   sc [uni=1] [och=0] sched=0|1 ping=MS pong=MS stale=MS ecd=MS escd=MS pres=MS csr=0|1 rh=0|1 srh=0|1
 //      rhr=v,v,… srhr=v,v,… pp=d,d,-,… ppd=d|- ev=T:kind[:arg…];… end=MS
 //
 // ping/pong: transport PingPongConfig in ms (-1 disabled).  stale/ecd/escd/pres: ClientStaleCloseDelay,
@@ -17,6 +17,9 @@ package centrifuge
 // csr: ConnectReply.ClientSideRefresh.  rh / srh: a RefreshHandler / SubRefreshHandler is registered.
 // rhr / srhr: scripted answers of the server-side (timer driven) refresh / sub refresh handler calls:
 // N (ExpireAt = now+N s; 0 = ExpireAt 0), x (Expired), e (error).  When exhausted: x.
+// uni=1: the transport is unidirectional (connect through Client.Connect; such a client never sends pongs and
+// must never be closed NoPong).  och=0: the node has NO ConnectingHandler, credentials come from the context
+// (then there is no client-side refresh).
 // pp / ppd: pong policy — the k-th ping frame the transport sees is answered by a pong command pp[k] ms later
 // ("-": withheld); pings beyond the list use ppd.  Every pong command sent is recorded as `pin`.
 // Events (T = ms since the scenario's second-aligned base time, non-decreasing):
@@ -83,7 +86,11 @@ type verifC36Frame struct {
 		Expires bool   `json:"expires"`
 		TTL     uint32 `json:"ttl"`
 	} `json:"sub_refresh"`
-	Push *struct {
+	// unidirectional transports receive bare pushes
+	Channel     string                        `json:"channel"`
+	Unsubscribe *struct{ Code uint32 `json:"code"` } `json:"unsubscribe"`
+	Disconnect  *struct{ Code uint32 `json:"code"` } `json:"disconnect"`
+	Push        *struct {
 		Channel     string `json:"channel"`
 		Unsubscribe *struct{ Code uint32 `json:"code"` } `json:"unsubscribe"`
 		Refresh     *struct {
@@ -105,13 +112,14 @@ type verifC36Transport struct {
 	rec        *verifC36Rec
 	ping, pong time.Duration
 	onPing     func()
+	uni        bool
 }
 
 func (t *verifC36Transport) Name() string                     { return "verif" }
 func (t *verifC36Transport) AcceptProtocol() string           { return "" }
 func (t *verifC36Transport) Protocol() ProtocolType           { return ProtocolTypeJSON }
 func (t *verifC36Transport) ProtocolVersion() ProtocolVersion { return ProtocolVersion2 }
-func (t *verifC36Transport) Unidirectional() bool             { return false }
+func (t *verifC36Transport) Unidirectional() bool             { return t.uni }
 func (t *verifC36Transport) Emulation() bool                  { return false }
 func (t *verifC36Transport) DisabledPushFlags() uint64        { return 0 }
 func (t *verifC36Transport) PingPongConfig() PingPongConfig {
@@ -132,6 +140,21 @@ func (t *verifC36Transport) frame(l string) {
 	var x verifC36Frame
 	if json.Unmarshal([]byte(l), &x) != nil {
 		t.rec.add("frame?")
+		return
+	}
+	if t.uni {
+		switch {
+		case x.Connect != nil:
+			t.rec.add(fmt.Sprintf("connected:%d:%d", verifC36B(x.Connect.Expires), x.Connect.TTL))
+		case x.Unsubscribe != nil:
+			t.rec.add(fmt.Sprintf("unsub:%s:%d", x.Channel, x.Unsubscribe.Code))
+		case x.Refresh != nil:
+			t.rec.add(fmt.Sprintf("prefresh:%d:%d", verifC36B(x.Refresh.Expires), x.Refresh.TTL))
+		case x.Disconnect != nil:
+			// the same code is reported through Close
+		default:
+			t.rec.add("frame?")
+		}
 		return
 	}
 	switch {
@@ -321,9 +344,12 @@ func verifC36Scenario(line string) (res string) {
 	var connectExp int64
 	var subExp int64
 	var subCSR bool
-	node.OnConnecting(func(ctx context.Context, e ConnectEvent) (ConnectReply, error) {
-		return ConnectReply{Credentials: &Credentials{UserID: "u", ExpireAt: connectExp}, ClientSideRefresh: csr}, nil
-	})
+	// och=0: no ConnectingHandler at all, credentials come from the context (authenticating middleware)
+	if kv["och"] != "0" {
+		node.OnConnecting(func(ctx context.Context, e ConnectEvent) (ConnectReply, error) {
+			return ConnectReply{Credentials: &Credentials{UserID: "u", ExpireAt: connectExp}, ClientSideRefresh: csr}, nil
+		})
+	}
 	node.OnConnect(func(c *Client) {
 		c.OnAlive(func() { rec.add("alive") })
 		c.OnSubscribe(func(e SubscribeEvent, cb SubscribeCallback) {
@@ -359,7 +385,7 @@ func verifC36Scenario(line string) (res string) {
 	if err := node.Run(); err != nil {
 		return "harness-error run"
 	}
-	tr := &verifC36Transport{rec: rec, ping: verifC36Ms(kv["ping"]), pong: verifC36Ms(kv["pong"])}
+	tr := &verifC36Transport{rec: rec, ping: verifC36Ms(kv["ping"]), pong: verifC36Ms(kv["pong"]), uni: kv["uni"] == "1"}
 	ctx, cancel := context.WithCancel(context.Background())
 	var client *Client
 	defer func() {
@@ -490,7 +516,24 @@ func verifC36Scenario(line string) (res string) {
 			if client != nil {
 				return "bad-op"
 			}
-			c, _, err := NewClient(ctx, node, tr)
+			cctx := ctx
+			if kv["och"] == "0" {
+				// ExpireAt of the context credentials = (second of the first connect event) + its EXP
+				var at int64
+				for _, e2 := range evs {
+					p2 := strings.Split(e2, ":")
+					if len(p2) >= 3 && p2[1] == "connect" {
+						tm, _ := strconv.ParseInt(p2[0], 10, 64)
+						n, _ := strconv.ParseInt(p2[2], 10, 64)
+						if n != 0 {
+							at = rec.base.Unix() + tm/1000 + n
+						}
+						break
+					}
+				}
+				cctx = SetCredentials(ctx, &Credentials{UserID: "u", ExpireAt: at})
+			}
+			c, _, err := NewClient(cctx, node, tr)
 			if err != nil {
 				return "harness-error new-client"
 			}
@@ -506,7 +549,11 @@ func verifC36Scenario(line string) (res string) {
 			}
 			cmdID++
 			wasAuth := client.authenticated
-			client.HandleCommand(&protocol.Command{Id: cmdID, Connect: &protocol.ConnectRequest{}}, 0)
+			if tr.uni {
+				client.Connect(ConnectRequest{})
+			} else {
+				client.HandleCommand(&protocol.Command{Id: cmdID, Connect: &protocol.ConnectRequest{}}, 0)
+			}
 			if !wasAuth {
 				client.mu.RLock()
 				if client.authenticated && client.status == statusConnected {
